@@ -339,6 +339,28 @@ Fixpoint rn_pow (fuel : nat) (x : rnum) (n : nat) : option rnum :=
   | S O => Some x
   | S n' => match rn_pow fuel x n' with Some y => rn_mul fuel x y | None => None end
   end.
+(* x^n directly: annihilator Res_t (p(t), z - t^n) (degree deg p in z) and selection by the enclosure (lo^n, hi^n)
+   hull; much cheaper than n-1 successive products for large n *)
+Definition ann_pow (p : poly) (n : nat) : poly :=
+  bires (bp_of_upoly p) (bp_trim ([[0; 1]] ++ repeat [] (Nat.pred n) ++ [[-1]])).
+Definition iv_pow (a b : rat) (n : nat) : rat * rat :=
+  let pa := q_pow a (N.of_nat n) in let pb := q_pow b (N.of_nat n) in
+  if Nat.even n && (q_sgn a * q_sgn b <? 0) then ((0, 1), q_max pa pb)     (* interval straddles 0, even power *)
+  else (q_min pa pb, q_max pa pb).
+Definition rn_pow_direct (fuel : nat) (x : rnum) (n : nat) : option rnum :=
+  match n with
+  | O => Some (RQ (1, 1))
+  | S O => Some x
+  | _ =>
+    match x with
+    | RQ q => Some (RQ (q_pow q (N.of_nat n)))
+    | RA p _ _ =>
+      if rn_sgn x =? 0 then Some (RQ (0, 1)) else
+      let r := psqfree (ann_pow p n) in
+      rn_select fuel r (fun x _ => iv_pow (rn_lo x) (rn_hi x) n) x x
+    end
+  end.
+
 (* positive n-th root of x >= 0: the unique non-negative root of p(z^n) that is the n-th root; checked by
    comparing its n-th power with x, so only the annihilator and a selection are needed *)
 Definition ann_root (p : poly) (n : nat) : poly := pcomp p (pshift n [1]).
